@@ -32,7 +32,7 @@ _odd = st.lists(st.tuples(st.integers(0, 60), st.sampled_from(_SEPARATORS)), min
 _case = st.fixed_dictionaries(dict(
     prog=proggen.program, cuts=st.lists(st.integers(0, 60), min_size=4, max_size=7), nested=st.booleans(),
     names=st.permutations(_FN), cli=st.integers(0, 7), odd=st.one_of(st.just([]), _odd),
-    empty_at=st.one_of(st.none(), st.none(), st.integers(0, 60))))
+    empty_at=st.one_of(st.none(), st.none(), st.integers(0, 60)), inc_case=st.integers(0, 5)))
 
 
 def with_odd_comments(lines, odd):
@@ -209,6 +209,11 @@ def execute(case):
         if case.get("odd"):
             labels.append("separator_in_comment")
         files, main = split(lines, case["cuts"], case["nested"], case["names"])
+        if case.get("inc_case", 0) in (1, 2):
+            # the directive spelled include / Include (mnemonics are accepted in any letter case), in every file
+            word = " include " if case["inc_case"] == 1 else " Include "
+            files = dict((k, [l.replace(" INCLUDE ", word) if l.startswith(" INCLUDE ") else l for l in v]) for k, v in files.items())
+            labels.append("include_lower_case")
         if case.get("empty_at") is not None:
             # two cuts on one boundary: an included file that holds nothing (zero bytes), in a file picked by the draw
             host = sorted(files)[case["empty_at"] % len(files)]
